@@ -376,6 +376,23 @@ def cases(draw, **kw):
             'as_path': draw(st.integers(0, 3)) == 0}
 
 
+def sensor_scaled_cases():
+    from props.C14 import scale_variants
+    variants = [(n, g) for (n, g) in scale_variants() if g]
+
+    def fn(shard, nshards):
+        i = 0
+        for (name, graph) in variants:
+            for t in ('f64', 'f32', 'i16'):
+                i += 1
+                if i % nshards == shard:
+                    raw = np.array([1.0 + 0.25 * k for k in range(3)], dtype={'f64': '<f8', 'f32': '<f4', 'i16': '<i2'}[t])
+                    yield {'type': t, 'graph': graph, 'level': 'channel', 'other': None, 'status': None, 'with_count': True,
+                           'other_count': True, 'segs': [[raw.tobytes(), raw.tobytes()], [raw.tobytes()]], 'be': False,
+                           'variant': name}
+    return fn
+
+
 def _scaled_cases():
     from props.C13 import cases as c13_cases
     return c13_cases(noop=True)
@@ -385,8 +402,12 @@ def jobs(tier):
     if tier == 'quick':
         return [Job('files', 'hyp', lambda: cases(max_segments=5), n=2500),
                 Job('daqmx_files', 'hyp', daqmx_cases, n=800, check=check_daqmx),
-                Job('scaled_channels', 'hyp', _scaled_cases, n=800, check=check_scaled)]
+                Job('scaled_channels', 'hyp', _scaled_cases, n=800, check=check_scaled),
+                Job('every_scale_type', 'enum', sensor_scaled_cases(), exhaustive=True, check=check_scaled,
+                    note='every scale type of the C14 matrix x 3 raw types: all access paths against the eager full read')]
     return [Job('files', 'hyp', lambda: cases(max_segments=6), n=100000),
             Job('bigger', 'hyp', lambda: cases(max_segments=8, max_n=60, max_chunks=4), n=20000),
             Job('daqmx_files', 'hyp', daqmx_cases, n=30000, check=check_daqmx),
-            Job('scaled_channels', 'hyp', _scaled_cases, n=30000, check=check_scaled)]
+            Job('scaled_channels', 'hyp', _scaled_cases, n=30000, check=check_scaled),
+            Job('every_scale_type', 'enum', sensor_scaled_cases(), exhaustive=True, check=check_scaled,
+                note='every scale type of the C14 matrix x 3 raw types: all access paths against the eager full read')]
